@@ -79,8 +79,8 @@ CHECKS["C01"] = dict(
          "byte range of the COBOL layout rule `specNav`; C01_length; the elementary width is a parameter so EBCDIC and text are both covered. "
          "Tied to the code by rendering generated trees to copybook text and comparing the emitted schema (property order included) and the "
          "(start,end) of every path with the model, plus raw() slices.",
-    note="Trusted: Lean kernel; the model of build_json_schema/LocationMaker.walk/NDNav is hand-written and tied by correspondence only "
-         "(no extraction: method dispatch). Hypotheses of the theorem = negations of known findings D2 (unique anchor names) and D34 "
+    note="Trusted: Lean kernel; the model of build_json_schema/LocationMaker.walk/NDNav is hand-written; tied by correspondence and by the "
+         "pinned sources of LocationMaker, NDNav and the Location.value methods (Tie/C01; no semantic extraction: method dispatch). Hypotheses of the theorem = negations of known findings D2 (unique anchor names) and D34 "
          "(participants are not elementary OCCURS items); redefiners adjacent to their base and no longer than it.",
     technique="Lean 4 proof (mutual structural induction over nested inductive item trees, sublist/Nodup lemmas for the anchors map) + differential correspondence on every path",
     design="5/C01")
@@ -132,13 +132,16 @@ CHECKS["C12"] = dict(
     text="Lean 4 (line and level layers): refFormat_congr, seq_area_irrelevant (columns 1-6), ident_area_irrelevant (columns 73-80), "
          "dropped_lines_irrelevant (comment/blank/EJECT/SKIP lines), replacing_once (every line once, all replacements applied; D18 refuted for "
          "the pinned commit), leading_space_irrelevant, renumber_invariant (any order-preserving renumbering of the levels that occur gives the "
-         "same forest). The clause layer (synonyms, optional words, clause order, separators, case, storage-irrelevant clauses) is decided by a "
-         "METAMORPHIC oracle on the real code: every rewrite kind alone and in random compositions must leave layout and decoded values "
-         "unchanged; the real reference_format+dde_sentences are corresponded with RefFormat.parseText on every respelled text.",
-    note="PARTIAL at the proof level: the CLAUSES regular expression is pinned and exercised metamorphically, not modelled in Lean. Known "
-         "findings D20, D26, D27, D28, D32, D33, D39, D11 each have their own rewrite-kind signature; any other rewrite that changes the result "
-         "is a violation.",
-    technique="Lean 4 proof (list congruence for the line layer; simulation of the stack machine under level renumbering) + pinned-source tie + metamorphic differential testing of the clause layer",
+         "same forest). Clause layer (Props/C12Clause.lean over the word-level model Model/Clause.lean of clause_dict): parse_entry -- for EVERY head "
+         "and EVERY list of well-formed clauses, in any order and spelling, the parser returns the head's name and exactly the clauses' meanings; "
+         "spelling_irrelevant (optional words IS/TIMES/USAGE/ON/WHEN/SIGN, synonyms), order_irrelevant (any permutation), name_kept. Tied by the "
+         "pinned CLAUSES source and by correspondence with the real clause_dict on canonical entries and on word soup (exhaustive over short "
+         "sequences of a 40-word vocabulary). On top, a METAMORPHIC oracle on the real code: every rewrite kind alone and in random compositions "
+         "must leave layout and decoded values unchanged; reference_format+dde_sentences are corresponded with RefFormat.parseText.",
+    note="Character-level behaviour of the pattern (separator glued to a picture, two separators before INDEXED, quoted literals with blanks or "
+         "quotes, lower case) is outside the word model (it answers `unmodelled`) and decided by the metamorphic oracle only. Known findings D20, "
+         "D26, D27, D28, D33, D42, D11 each have their own rewrite-kind signature; any other rewrite that changes the result is a violation.",
+    technique="Lean 4 proof (list congruence for the line layer; simulation of the stack machine under level renumbering; parse-of-render induction over clause lists for the clause layer) + pinned-source tie + differential correspondence + metamorphic testing",
     design="5/C12")
 
 CHECKS["C08"] = dict(
